@@ -1,4 +1,5 @@
 import CifModel.Model.Locale
+import CifModel.Gen.GlobalState
 /-
   Property C16 (partial) — the part of "no lasting global side effects" that is logic: the numeric-locale protocol.
 
@@ -6,8 +7,10 @@ import CifModel.Model.Locale
   argument validity and every outcome of the formatting body, `cif_value_init_numb` and `cif_value_autoinit_numb`
   return with the numeric locale they were entered with — provided that re-installing a locale that was current a
   moment ago succeeds (`Restorable`, an assumption about setlocale stated explicitly).
-  The floating-point rounding mode is only ever read (fegetround) by the library: there is no call that could change it,
-  which the correspondence family `locale` observes (fegetround before / after).
+  The floating-point rounding mode is only ever read (fegetround) by the library: there is no call that could change it
+  (C16_rounding_mode_restored, over the call sites regenerated from the sources by tools/translate_globals.py), which
+  the correspondence family `locale` also observes (fegetround before / after).
+  That no OTHER function touches the numeric locale is the same kind of fact: C16_global_state_sites.
 -/
 namespace CifModel
 open Model.Locale
@@ -81,5 +84,57 @@ example :
     (setCNumericLocale e { cur := .other 7 }).2.cur = .c ∧
     (initNumb e true .ok { cur := .other 7 }).2.cur = .other 7 ∧
     (autoinitNumb e true false true true .formatError { cur := .other 7 }).2.cur = .other 7 := by decide
+
+-- ---------------------------------------------------------------------------------------------------------------
+-- which functions touch process-wide state at all (tie to the sources: Gen/GlobalState.lean)
+
+open Gen.GlobalState in
+/-- EVERY call site, anywhere in src/*.c, of a function that reads or can change process-wide state (numeric locale,
+    floating-point environment, environment variables, signal dispositions, random seed, umask / working directory, exit
+    handlers, global configuration of ICU and SQLite — the names searched are listed in Gen/GlobalState.lean), as
+    (containing function, callee, arguments, can it change state?).  The list is regenerated from the working tree on every
+    run; this theorem pins it to what the model covers: the numeric locale is touched only by set_c_numeric_locale (query +
+    switch to "C") and by the restoring calls of cif_value_init_numb (two exits) and cif_value_autoinit_numb (one) — the
+    three functions of Model/Locale.lean; round_it only READS the rounding mode; cif_create initialises SQLite (idempotent,
+    meant to last).  A call added anywhere else in the library makes this `decide` fail. -/
+theorem C16_global_state_sites :
+    sites.map (fun s => (s.function, s.callee, s.args, s.isSetter)) =
+    [ (a!"cif_create", a!"sqlite3_initialize", [], true),
+      (a!"round_it", a!"fegetround", [], false),
+      (a!"set_c_numeric_locale", a!"setlocale", a!"LC_NUMERIC, NULL", true),
+      (a!"set_c_numeric_locale", a!"setlocale", a!"LC_NUMERIC, \"C\"", true),
+      (a!"cif_value_init_numb", a!"setlocale", a!"LC_NUMERIC, locale", true),
+      (a!"cif_value_init_numb", a!"setlocale", a!"LC_NUMERIC, locale", true),
+      (a!"cif_value_autoinit_numb", a!"setlocale", a!"LC_NUMERIC, locale", true) ] := by decide +kernel
+
+/-- the C99 functions that can change the floating-point environment (rounding mode, exception flags) -/
+def C16_fenvSetters : List (List Nat) :=
+  [a!"fesetround", a!"fesetenv", a!"feholdexcept", a!"feupdateenv", a!"feclearexcept", a!"feraiseexcept", a!"fesetexceptflag"]
+
+open Gen.GlobalState in
+/-- "the rounding mode is as the caller left it": no function of the library calls anything that can change the
+    floating-point environment, so there is nothing to restore; the only floating-point-environment call in the library is
+    the QUERY fegetround in round_it (which is why cif_value_init_numb / autoinit_numb round as the caller's mode says).
+    A save / restore protocol as for the locale does not exist in the code, so there is no model of one. -/
+theorem C16_rounding_mode_restored :
+    (∀ s ∈ sites, s.callee ∉ C16_fenvSetters) ∧
+    (sites.filter (fun s => s.callee.take 2 == a!"fe")).map (fun s => (s.function, s.callee)) = [(a!"round_it", a!"fegetround")] := by
+  refine ⟨?_, by decide +kernel⟩
+  have h : sites.all (fun s => !(C16_fenvSetters.contains s.callee)) = true := by decide +kernel
+  intro s hs hc
+  have := List.all_eq_true.mp h s hs
+  simp [hc] at this
+
+open Gen.GlobalState in
+/-- "no other function calls setlocale": every setlocale call site lies in one of the three modelled functions -/
+theorem C16_setlocale_only_in_protocol :
+    ∀ s ∈ sites, s.callee = a!"setlocale" →
+      s.function = a!"set_c_numeric_locale" ∨ s.function = a!"cif_value_init_numb" ∨ s.function = a!"cif_value_autoinit_numb" := by
+  have h : sites.all (fun s => s.callee != a!"setlocale" || s.function == a!"set_c_numeric_locale" ||
+      s.function == a!"cif_value_init_numb" || s.function == a!"cif_value_autoinit_numb") = true := by decide +kernel
+  intro s hs hc
+  have := List.all_eq_true.mp h s hs
+  simp [hc] at this
+  exact or_assoc.mp this
 
 end CifModel
